@@ -19,6 +19,7 @@ ASSUMPTIONS = [
     "DE/PSO start points: at most population-size many; the start-point relation is applied to in-bounds ones",
     "bfgs/lbfgs: smooth objectives with their analytic gradient, objective_fn always given",
 ]
+QUICK_SCALE = 2.5  # quick-tier multiplier (idle 16-core timing: ~10 s at scale 1)
 STRATA = [
     ("anneal", 2000, 40000),
     ("tabu", 1500, 30000),
